@@ -181,3 +181,36 @@ Definition known12r (i : rrinput) (o : robs) : nat :=
 
 Definition check12r (c : rrinput * robs) : bool * bool * nat :=
   let '(i, o) := c in (agree12r i o, ok12r i o, if ok12r i o then 0 else known12r i o).
+
+(* ---- the same histories over the durable-streams store (suites resubds, resubdsinner) ---- *)
+From Ebu Require Import Store.ResubDs.
+
+Definition ds_fuel : nat := 80.
+
+Definition agree12ds (i : rinput) (o : robs) : bool :=
+  list_eqb oobs_eqb (run_obs_ds ds_fuel (ri_tys i) (ri_hist i) init) (ro_ops o) &&
+  list_eqb ev_eqb (log (run_ds ds_fuel (ri_tys i) (ri_hist i) init)) (ro_log o) &&
+  Nat.eqb (ro_anomaly o) 0.
+
+(* known finding (bit 4): during a replay the durable-streams store labels the events of a page with synthetic offsets
+   that all resume from the page's end; the offset saved after the first handled event therefore already covers the
+   whole page, and when that SubscribeWithReplay is cut short (the process dies, or a later read fails) the rest of the
+   page is never delivered.  Pattern: nothing else is wrong, every missing event lies at or below the subscription's
+   final saved position, and a SubscribeWithReplay of that subscription had a crash or a failing operation. *)
+Definition troubled_sub (h : list (op * plan)) (id : nat) : bool :=
+  existsb (fun x => match fst x with OSub i _ => Nat.eqb i id && plan_troubled (snd x) | _ => false end) h.
+Definition known12ds (i : rinput) (o : robs) : nat :=
+  let final_saved := match rev (ro_ops o) with ob :: _ => oo_saved ob | [] => [] end in
+  if Nat.eqb (ro_anomaly o) 0 && Nat.eqb (length (ro_ops o)) (length (ri_hist i)) &&
+     match os_bad (walk12 i o) with [] => true | _ => false end &&
+     match missing i o with [] => false | _ => true end &&
+     forallb (fun m => let '(id, val) := m in
+                       let p := pos_of (ro_log o) val 1 in
+                       negb (Nat.eqb p 0) && Nat.leb p (nth id final_saved 0) && troubled_sub (ri_hist i) id) (missing i o)
+  then 4 else 0.
+
+Definition check12ds (c : rinput * robs) : bool * bool * nat :=
+  let '(i, o) := c in (agree12ds i o, ok12 i o, if ok12 i o then 0 else known12ds i o).
+
+Definition explain12ds (c : rinput * robs) :=
+  let '(i, o) := c in (run_obs_ds ds_fuel (ri_tys i) (ri_hist i) init, os_bad (walk12 i o), missing i o).
